@@ -122,8 +122,9 @@ LOGLEVELS = ["DEBUG", "INFO", "WARNING", "ERROR", "CRITICAL"]
 LOGFILTERS = ["verif", "other", "-verif", "-other", "verif,other", "verif,-other", "-verif,-other", "nobody"]
 
 
-def plan(tier, seed):
-    """-> list of (prog, cfgs, faults)"""
+def plan(tier, seed, with_dup=False):
+    """-> list of (prog, cfgs, faults); with_dup: plus the family whose scenarios contain steps that compare equal (only the
+    core stage drives it: the report consumers map steps by their text)"""
     rnd = random.Random(seed)
     out = []
     quick = tier == "quick"
@@ -341,6 +342,22 @@ def plan(tier, seed):
             fs.append([a, 0] if rnd.random() < 0.8 else [a, rnd.randint(1, nh)])
         return fs
 
+    def dupstep_programs():
+        """scenarios in which a step repeats the text of the step before it (Step objects that compare equal): every first
+        non-passing position x outcome over 4 steps, + continue_after_failed_step, + second attempts"""
+        res = []
+        rr = random.Random(seed * 7 + 3)
+        for k in range(4):
+            for o in ("fail", "error", "pending", "skip", "kbd", "abort", "skip_fail", "nest_fail"):
+                seq = ["pass"] * k + [o] + ["pass"] * (3 - k)
+                prog = {"features": [G.feature([G.scenario(seq), G.scenario(["pass", "pass", "fail", "pass", "pass", "pass"])], bg=["pass"])],
+                        "family": "dupsteps", "dupsteps": True}
+                res.append((with_o2(prog), [G.cfg(), G.cfg(cont=True) if k % 2 else G.cfg(retry=True)], [[0, 0]] + ([[rr.randint(1, 30), 0]] if k == 1 else [])))
+        res.append((with_o2({"features": [G.feature([G.scenario(["pass"] * 6)])], "family": "dupsteps", "dupsteps": True}), [G.cfg(), G.cfg(dry=True)], [[0, 0]]))
+        return res
+
+    if with_dup:
+        out.extend(dupstep_programs())
     if quick:
         for p in G.family_scen(2):
             out.append((with_o2(p), [G.cfg(), rcfg()], rfaults(p, 2)))
@@ -401,7 +418,7 @@ def shared(chk, part="core"):
     """Run (or load) the shared stage for this tree / tier / seed.  Returns a dict:
        n_runs, tlc: [{module,cfg,distinct,generated,wall,coverage}], verdicts: {clause: [ {key, ...} ]},
        divergences, samples, design_violations"""
-    key = tree_key({"tier": chk.tier, "seed": chk.seed, "part": part, "v": 39})
+    key = tree_key({"tier": chk.tier, "seed": chk.seed, "part": part, "v": 40})
     os.makedirs(CACHE, exist_ok=True)
     # one entry per (part, tier, repository location): runs against a mutated copy must not evict /repo's entry
     prefix = "%s-%s-%s-" % (part, chk.tier, hashlib.sha256(REPO.encode()).hexdigest()[:8])
@@ -432,7 +449,7 @@ def _compute(chk, part):
     import shutil
     import tempfile
     t0 = time.time()
-    pl = plan(chk.tier, chk.seed)
+    pl = plan(chk.tier, chk.seed, with_dup=True)
     cases, info = [], {}
     for i, (p, cfgs, faults) in enumerate(pl):
         case, flat = C.make_case(i + 1, p, cfgs, faults)
